@@ -34,6 +34,7 @@ import (
 
 type listener struct {
 	openOnce, closeOnce sync.Once
+	mu                  sync.RWMutex // guards fd: Engine.Dup/DupListener may race with the shutdown closing the listener
 	fd                  int
 	addr                net.Addr
 	address, network    string
@@ -48,6 +49,8 @@ func (ln *listener) packPollAttachment(handler netpoll.PollEventHandler) *netpol
 }
 
 func (ln *listener) dup() (int, error) {
+	ln.mu.RLock()
+	defer ln.mu.RUnlock()
 	return socket.Dup(ln.fd)
 }
 
@@ -73,6 +76,8 @@ func (ln *listener) open() (err error) {
 
 func (ln *listener) close() {
 	ln.closeOnce.Do(func() {
+		ln.mu.Lock()
+		defer ln.mu.Unlock()
 		if ln.fd > 0 {
 			logging.Error(os.NewSyscallError("close", unix.Close(ln.fd)))
 			vhook.Sys("ln.close", ln, ln.fd, 0, nil)
